@@ -300,6 +300,24 @@ func init() {
 		}
 		return "ok " + hx(text) + " ok " + showRecord(w.Elem())
 	}
+	// croundtripself: the same, but the marshalled text is unmarshalled INTO THE VALUE IT CAME FROM (and once more into
+	// the result): every kind of field is replaced by what the text says - a list is not appended to what the field held
+	ops["croundtripself"] = func(a []string) string {
+		v, ok := buildStruct(a)
+		if !ok {
+			return "no-such-type"
+		}
+		text, anomaly := marshalHistory(v)
+		if anomaly != "" {
+			return anomaly
+		}
+		for i := 0; i < 2; i++ {
+			if err := control.Unmarshal(v.Interface(), strings.NewReader(text)); err != nil {
+				return "ok " + hx(text) + " err"
+			}
+		}
+		return "ok " + hx(text) + " ok " + showRecord(v.Elem())
+	}
 	// cptr mask version dep arch text num: a struct whose optional fields are POINTERS (nil when the mask bit is 0).
 	// Marshalling it must not panic; a nil pointer is an absent field, a non-nil one is written as its value.
 	ops["cptr"] = func(a []string) string {
